@@ -209,6 +209,17 @@ def body_values(case, ctx):
     _cmp(ctx, b, ref, unit_d, C_VAL, "scipy-vs-definition", f"generate_real_spherical_harmonics_scipy(l_max={l_max})")
     if a.shape == b.shape:
         _cmp(ctx, a, b, unit_d, C_VAL, "implementations-disagree", f"recursive vs scipy implementation (l_max={l_max})")
+    if l_max <= 12:
+        # azimuths given as whole radians in an integer-dtype array are the same angles as those floats
+        thi = np.rint(th).astype(np.int64)
+        for fn, nm in ((y_rec, "recursive"), (y_sci, "scipy")):
+            want = np.asarray(fn(l_max, thi.astype(float), ph.copy()), dtype=float)
+            try:
+                got_i = np.asarray(fn(l_max, thi.copy(), ph.copy()), dtype=float)
+            except (TypeError, ValueError):
+                ctx.cls("int-azimuth:rejected-loudly")
+                continue
+            _cmp(ctx, got_i, want, _unit_values(l_max, thi.astype(float)), C_VAL, f"{nm}-integer-dtype-azimuth", f"{nm} implementation, azimuth {thi.tolist()} as int64 vs float64 (l_max={l_max})")
 
 
 def body_mp(case, ctx):
